@@ -303,6 +303,85 @@ Proof.
   apply is_loop_any_target; assumption.
 Qed.
 
+(* ---------- look-alikes are never confused with the real thing ---------- *)
+Lemma erase_retag k e : erase (retag k e) = erase e.
+Proof. induction e; cbn [retag erase]; try rewrite IHe; reflexivity. Qed.
+
+Lemma retag_wrapper k t i : node_id t = Some i -> comparable (retag k t) = true /\ is_nil (retag k t) = false.
+Proof. destruct t; cbn; intros H; try discriminate; split; reflexivity. Qed.
+
+Lemma same_value_retag k t n i : node_id t = Some i ->
+  (forall j, node_id n = Some j -> (j < k)%nat) -> same_value (retag k t) n = false.
+Proof.
+  intros Ht Hn. unfold same_value.
+  destruct t; cbn [node_id] in Ht; try discriminate; cbn [retag];
+    destruct n; cbn [go_eq]; try reflexivity;
+    (match goal with |- context [Nat.eqb ?a ?b] =>
+       specialize (Hn a eq_refl); destruct (Nat.eqb_spec a b); [lia | reflexivity] end).
+Qed.
+
+Lemma no_same_value_in_chain k t i l : node_id t = Some i ->
+  forallb (fun n => match node_id n with Some j => Nat.ltb j k | None => true end) l = true ->
+  existsb (same_value (retag k t)) l = false.
+Proof.
+  intros Ht. induction l as [|n r IH]; intros H; [reflexivity|].
+  cbn [forallb existsb] in *. apply andb_true_iff in H as [H1 H2].
+  rewrite (same_value_retag k t n i Ht), (IH H2); [reflexivity|].
+  intros j Hj. rewrite Hj in H1. apply Nat.ltb_lt. exact H1.
+Qed.
+
+Lemma method_is_sent_sound e s r : method_is e (ESent s) = Some r -> r = RTrue -> occurs_sent s e = true.
+Proof.
+  destruct e; cbn [method_is]; intros H; try discriminate; inversion H; subst r; rewrite lib_is_sent;
+    intros W; cbn [occurs_sent]; apply lib_walk_sent_sound; exact W.
+Qed.
+
+(* a sentinel that does not itself (by identity) occur in the value is not reported — whatever else
+   the value contains, e.g. a foreign errors.New with the very same text ([twin_of s]) *)
+Theorem lookalike_sentinel_not_reported e s : occurs_sent s e = false ->
+  errors_is e (ESent s) <> RTrue /\ (forall r, method_is e (ESent s) = Some r -> r <> RTrue).
+Proof.
+  intros Ho. split.
+  - intros H. apply is_never_spurious in H. congruence.
+  - intros r Hm Hr. pose proof (method_is_sent_sound e s r Hm Hr). congruence.
+Qed.
+
+Lemma twin_is_other s s' : sentinel_eqb s' (twin_of s) = true -> s' = twin_of s.
+Proof. apply sentinel_eqb_eq. Qed.
+
+Lemma twin_differs s : In s documented_sentinels -> sentinel_eqb s (twin_of s) = false.
+Proof.
+  intros H. unfold sentinel_eqb, twin_of. cbn [sentinel_code].
+  cbn [documented_sentinels In] in H.
+  repeat (destruct H as [H|H]; [subst s; reflexivity|]). contradiction.
+Qed.
+
+(* a wrapper built a second time (same fields, same nesting, same sentinel inside: equal content,
+   [erase] cannot tell them apart) is a different value and is not found in the chain, neither by
+   errors.Is nor by the Is method *)
+Theorem lookalike_wrapper_not_reported e t k i :
+  lib_chain e = true -> node_id t = Some i -> ids_below k e = true ->
+  erase (retag k t) = erase t /\
+  errors_is e (retag k t) = RFalse /\
+  (forall r, method_is e (retag k t) = Some r -> r = RFalse).
+Proof.
+  intros Hl Ht Hk. destruct (retag_wrapper k t i Ht) as [Hc Hn].
+  pose proof (no_same_value_in_chain k t i (chain e) Ht Hk) as Hno.
+  split; [apply erase_retag|]. split.
+  - rewrite (is_any_target e (retag k t) Hl Hc Hn), Hno. reflexivity.
+  - intros r Hm.
+    destruct e; cbn [method_is] in Hm; try discriminate; inversion Hm; subst r; cbn [lib_chain] in Hl.
+    + destruct (lib_is_chain id e (retag k t) Hl Hc Hn) as [L1 [_ L3]].
+      cbn [chain existsb] in Hno. apply orb_false_iff in Hno as [N1 N2].
+      destruct (lib_is id e (retag k t)); [|reflexivity|contradiction].
+      specialize (L1 eq_refl). rewrite N1, N2 in L1. discriminate.
+    + destruct (lib_is_chain lid e (retag k t) Hl Hc Hn) as [L1 [_ L3]].
+      cbn [chain existsb] in Hno. apply orb_false_iff in Hno as [_ Hno].
+      apply orb_false_iff in Hno as [N1 N2].
+      destruct (lib_is lid e (retag k t)); [|reflexivity|contradiction].
+      specialize (L1 eq_refl). rewrite N1, N2 in L1. discriminate.
+Qed.
+
 (* ---------- wrapErrorImpl: io.EOF and nil pass through, nothing else does ---------- *)
 Lemma wrap_error_impl_cases id e :
   (e = ESent SEOF /\ wrap_error_impl id e = ESent SEOF) \/
@@ -1074,6 +1153,17 @@ Proof. reflexivity. Qed.
 Example ex_as_lib_skips_embedded :
   errors_as AsLib (EWithRetry 1 2 (ESent SClosedTransport) (HRetrySubscribe [])) = false.
 Proof. reflexivity. Qed.
+
+(* look-alikes: a chain that contains a foreign error with ErrNotConnected's text, and a second
+   allocation of one of its own wrappers *)
+Definition ex_twin_chain : err :=
+  EWithRetry 1 2 (EFmt 3 (ELib 4 (ESent (twin_of SNotConnected)))) (HRetrySubscribe []).
+Example ex_twin_not_confused :
+  occurs_sent SNotConnected ex_twin_chain = false /\ occurs_sent (twin_of SNotConnected) ex_twin_chain = true /\ errors_is ex_twin_chain (ESent SNotConnected) = RFalse /\ errors_is ex_twin_chain (ESent (twin_of SNotConnected)) = RTrue /\ method_is ex_twin_chain (ESent SNotConnected) = Some RFalse.
+Proof. repeat split; reflexivity. Qed.
+Example ex_twin_wrapper_hyps :
+  lib_chain ex_twin_chain = true /\ node_id (EFmt 3 (ELib 4 (ESent (twin_of SNotConnected)))) = Some 3%nat /\ ids_below 10 ex_twin_chain = true /\ errors_is ex_twin_chain (EFmt 3 (ELib 4 (ESent (twin_of SNotConnected)))) = RTrue /\ errors_is ex_twin_chain (retag 10 (EFmt 3 (ELib 4 (ESent (twin_of SNotConnected))))) = RFalse.
+Proof. repeat split; reflexivity. Qed.
 
 Definition ex_desc : desc :=
   DFmt 1 (DCall 2 (CkReq KPub2 FWrite2) (DLib 3 (DCall 4 CkRetryConnectOpt (DFmt 5 (DSent SEOF))))).
